@@ -103,6 +103,15 @@ func main() {
 				opts.Depth = atoiOr(d, 0)
 			}
 			g := BuildGCNFOpts(p, e, fn, opts)
+			if os.Getenv("GCNF_LIVEIN") != "" {
+				opts.LiveIn = true
+				g = BuildGCNFOpts(p, e, fn, opts)
+				for _, x := range g.GCs {
+					for k, v := range x.LiveIn {
+						fmt.Printf("    live-in on path to %s: %s := %s\n", x.Exit.String(), k, v.String())
+					}
+				}
+			}
 			if os.Getenv("GCNF_TAIL") != "" {
 				g = tailRecForm(p, g)
 			}
